@@ -570,6 +570,25 @@ pub fn seed_corpus() -> Vec<Program> {
             vec![rc(Re::ch('a'), Re::Class(Class::Diff(Box::new(Class::Any), Box::new(Class::Ch('b')))), Simple), rl(Re::ch('b'), Skip)],
         )],
     ));
+    // Shape taken from seeded change C09-m3 (DESIGN.md §9.3): a state with an accepting and a
+    // non-accepting predecessor (after "ab" / "bb"), and a context rule sharing a prefix with a
+    // longer rule - failures here go through backtrack() with and without a saved match.
+    v.push(prog(
+        "shared_suffix_and_ctx",
+        true,
+        vec![set(
+            "Init",
+            vec![
+                rl(Re::ch('a'), Simple),
+                rl(
+                    Re::cat(Re::alt(Re::ch('a'), Re::Class(Class::Set(vec![SetItem::Range('b', 'c')]))), Re::s("bca")),
+                    Infallible,
+                ),
+                rc(Re::ch('é'), Re::ch('c'), Simple),
+                rl(Re::s("é世😀"), Infallible),
+            ],
+        )],
+    ));
     v.push(prog(
         "right_ctx_3",
         true,
